@@ -19,7 +19,7 @@ def utf8Len (c : Char) : Nat :=
 
 /-- `char::len_utf16` -/
 def utf16Len (c : Char) : Nat :=
-  if c.toNat < 0x20000 then 1 else 2
+  if c.toNat < 0x10000 then 1 else 2
 
 /-- `str::len` of the text (bytes). -/
 def byteLen : Text → Nat
